@@ -43,7 +43,7 @@ def hook_stream(run, drv, ask):
         td = G.make_input(env)
         before = {k: v for k, v in td.items(True, True)}
         try:
-            with time_limit(20):
+            with time_limit(60):
                 mod.select_out_keys(*sel)
                 out = mod(td)
             impl = G.td_items(out)
@@ -64,6 +64,20 @@ def hook_stream(run, drv, ask):
             run.oracle_fail("hook", [psx, str(sel), str(env)], f"select_out_keys({sel}): selected keys missing {missing} / unselected out_keys present {leaked}", "hook:selection")
         else:
             run.oracle_ok("hook")
+        # reset_out_keys gives the module its full out_keys back
+        try:
+            with time_limit(60):
+                mod.reset_out_keys()
+                out2 = mod(G.make_input(env))
+            ref = G.reference_run(prog, env)
+            if ref is None or G.td_items(out2) != ref:
+                run.oracle_fail("hook", [psx, str(sel), str(env)], "after reset_out_keys() the module does not write all its out_keys again", "hook:reset")
+            else:
+                run.oracle_ok("hook_reset")
+        except TimeoutError:
+            raise
+        except Exception as e:  # noqa: BLE001
+            run.oracle_fail("hook", [psx, str(sel), str(env)], f"reset_out_keys()/call raised {type(e).__name__}", "hook:reset")
 
 
 # --------------------------------------------------------------------------- nested nodes with options
@@ -136,11 +150,16 @@ def build_node(n):
     kw = {"partial_tolerant": n[4]}
     if n[2] is not None:
         kw["inplace"] = {"yes": True, "no": False, "empty": "empty"}[n[2]]
-    if n[3] is not None:
+    via_method = n[3] is not None and (sum(map(ord, str(n[3]))) % 2 == 0)   # deterministic choice: constructor argument or method
+    if n[3] is not None and not via_method:
         kw["selected_out_keys"] = list(n[3])
     if n[5] == "dict":
-        return TensorDictSequential(collections.OrderedDict((f"l{i}", k) for i, k in enumerate(kids)), **kw)
-    return TensorDictSequential(*kids, **kw)
+        seq = TensorDictSequential(collections.OrderedDict((f"l{i}", k) for i, k in enumerate(kids)), **kw)
+    else:
+        seq = TensorDictSequential(*kids, **kw)
+    if via_method:
+        seq.select_out_keys(*n[3])
+    return seq
 
 
 def shape_of(mod):
@@ -180,20 +199,24 @@ def options_stream(run, drv, ask):
         rng.shuffle(arg)
         out = [k for k in G.UNIVERSE if rng.random() < 0.3] if rng.random() < 0.3 else None
         nsx = node_sx(node)
-        cases.append((node, arg, out, nsx))
+        skip = rng.random() < 0.25
+        if skip and rng.random() < 0.6:
+            # make it likely that the out_keys already exist
+            arg = list(dict.fromkeys(arg + [k for k in node_keys(node)[1] if k != G.SINK]))
+        cases.append((node, arg, out, nsx, skip))
         reqs.append(f"(c14.node_keys {nsx})")
         if out is None:
-            reqs.append(f"(c14.fwd {nsx} {envv(arg, 'i')})")
+            reqs.append(f"(c14.fwd {nsx} {envv(arg, 'i')} {'true' if skip else 'false'})")
         else:
-            reqs.append(f"(c14.fwd_out {nsx} {envv(arg, 'i')} {envv(out, 'o')})")
+            reqs.append(f"(c14.fwd_out {nsx} {envv(arg, 'i')} {envv(out, 'o')} {'true' if skip else 'false'})")
     answers = ask(drv, reqs)
-    for i, (node, arg, out, nsx) in enumerate(cases):
+    for i, (node, arg, out, nsx, skip) in enumerate(cases):
         m_keys, m_fwd = parse_sx(answers[2 * i]), parse_sx(answers[2 * i + 1])
         run.case(("fwd", nsx, str(arg), str(out)))
         run.count("fwd.top", node[0])
         run.count("fwd.tensordict_out", out is not None)
         try:
-            with time_limit(30):
+            with time_limit(90):
                 mod = build_node(node)
         except ValueError:
             run.count("fwd.build", "ValueError")
@@ -203,8 +226,10 @@ def options_stream(run, drv, ask):
         td = make_td(arg, "i")
         before = {k: v for k, v in td.items(True, True)}
         otd = make_td(out, "o") if out is not None else None
+        from tensordict.nn import set_skip_existing
+        run.count("fwd.skip_existing", skip)
         try:
-            with time_limit(30):
+            with time_limit(90), set_skip_existing(True if skip else False):
                 r = mod(td) if otd is None else mod(td, tensordict_out=otd)
             which = "arg" if r is td else "out" if r is otd else "new"
             impl = ["ok", which, G.td_items(r), G.td_items(td)]
@@ -221,11 +246,39 @@ def options_stream(run, drv, ask):
         else:
             run.count("fwd.model", "compared")
             model = [m_fwd[0]] + ([m_fwd[1]] if m_fwd[0] == "ok" else []) + [G.model_env(["ok", e]) for e in m_fwd[(2 if m_fwd[0] == "ok" else 1):]]
-            run.corr("forward_options", [nsx, str(arg), str(out)], impl, model)
+            run.corr("forward_options", [nsx, str(arg), str(out), skip], impl, model)
         if i < 2:
             run.sample({"stream": "forward_options", "node": nsx, "arg": str(arg), "tensordict_out": str(out), "model": answers[2 * i + 1][:400]})
         if r is None:
             continue
+        # oracle: under set_skip_existing(True) a module whose out_keys all exist (and none of whose in_keys is an out_key)
+        # hands back its input untouched
+        if skip:
+            oks, iks = canon_keys(mod.out_keys), canon_keys(mod.in_keys)
+            present = set(before) | {k[:j] if j > 1 else k[0] for k in before if isinstance(k, tuple) for j in range(1, len(k))}
+            if all(k in present for k in oks) and not any(k in oks for k in iks):
+                wr = all_written(node)
+                # (an unselected out_key that was already in the input is still dropped by the select_out_keys hook, which runs
+                #  on the returned input even though the forward was skipped: inside the module's own out_keys, not flagged)
+                changed = [k for k, v in before.items() if k not in wr and td.get(k, None) is not v] + [k for k in td.keys(True, True) if k not in before]
+                if r is not td or changed:
+                    run.oracle_fail("skip_existing", [nsx, str(arg), str(out)], f"all out_keys exist, yet the module ran (returned input: {r is td}, changed {changed})", "skip_existing")
+                else:
+                    run.oracle_ok("skip_existing")
+        # oracle: skip_existing is deactivated for a module whose out_keys are also in_keys: it computes as without the mode
+        if skip and node[0] == "mod" and otd is None and any(k in canon_keys(mod.out_keys) for k in canon_keys(mod.in_keys)):
+            td2 = make_td(arg, "i")
+            try:
+                with time_limit(90), set_skip_existing(False):
+                    r2 = build_node(node)(td2)
+                if G.td_items(r2) != G.td_items(r):
+                    run.oracle_fail("skip_existing", [nsx, str(arg), str(out)], "a module whose out_keys are also in_keys must not be skipped, but its result differs from the run without skip_existing", "skip_existing:in-is-out")
+                else:
+                    run.oracle_ok("skip_existing")
+            except TimeoutError:
+                raise
+            except Exception:  # noqa: BLE001
+                pass
         # oracle: entries of the *input* that are not out_keys of any module in the tree are untouched (same object)
         written = all_written(node)
         lost = [k for k, v in before.items() if k not in written and td.get(k, None) is not v]
@@ -233,12 +286,26 @@ def options_stream(run, drv, ask):
             run.oracle_fail("frame_options", [nsx, str(arg), str(out)], f"input entries that no module writes were removed/replaced: {lost}", "frame_options")
         else:
             run.oracle_ok("frame_options")
+        # oracle: a sequence with selected out-keys adds no unselected out-key to what it returns
+        if node[0] == "seq" and node[3] is not None:
+            sel_top = set(canon_keys(node[3]))
+            pre = set(before) if r is td else (set(out) if (otd is not None and r is otd) else set())
+            leaked = [k for k in r.keys(True, True) if k in written and k not in sel_top and k not in pre]
+            if leaked:
+                nested_only = all(isinstance(k, tuple) for k in leaked)
+                run.oracle_fail("seq_selection" if not nested_only else "tensordict_out", [nsx, str(arg), str(out)],
+                                f"selected_out_keys={sorted(map(str, sel_top))} but the result also gained {leaked}",
+                                "tensordict_out:extra-nested-siblings" if nested_only else "seq_selection:leaked")
+            else:
+                run.oracle_ok("seq_selection")
         # oracle: with tensordict_out, the returned object is tensordict_out and it gains nothing but out_keys
         if otd is not None:
             okeys = set(canon_keys(mod.out_keys))
             # (out_keys dropped by a selection are the business of the hook / select streams: only entries that *no* module writes count here)
             extra = [k for k in r.keys(True, True) if k not in okeys and k not in written and k not in out]
-            if r is not otd:
+            if r is not otd and skip:
+                run.count("fwd.skip_existing_returned_input", 1)   # the skip test of the decorator returns the input
+            elif r is not otd:
                 run.oracle_fail("tensordict_out", [nsx, str(arg), str(out)], "tensordict_out was given but another object was returned", "tensordict_out:identity")
             elif extra:
                 nested = all(isinstance(k, tuple) for k in extra)
@@ -282,7 +349,7 @@ def nested_select_stream(run, drv, ask):
             built[nsx] = build_node(node)
         seq = built[nsx]
         try:
-            with time_limit(30):
+            with time_limit(90):
                 sub = seq.select_subsequence(in_keys=None if ik is None else list(ik), out_keys=None if ok is None else list(ok))
             impl = ["ok", shape_of(sub), canon_keys(sub.in_keys), canon_keys(sub.out_keys)]
         except ValueError:
@@ -292,7 +359,7 @@ def nested_select_stream(run, drv, ask):
         if ik is None and ((ok is None and len(seq.out_keys)) or (ok is not None and any(k in canon_keys(seq.out_keys) for k in canon_keys(ok)))):
             full_in = make_td(list(seq.in_keys), "i")
             try:
-                with time_limit(30):
+                with time_limit(90):
                     full = seq(full_in.clone())
             except TimeoutError:
                 raise
@@ -304,7 +371,7 @@ def nested_select_stream(run, drv, ask):
                                     "select_nested:raised")
                 else:
                     try:
-                        with time_limit(30):
+                        with time_limit(90):
                             r = sub(full_in.clone())
                         want = canon_keys(seq.out_keys) if ok is None else [k for k in canon_keys(ok) if k in canon_keys(seq.out_keys)]
                         bad = [k for k in want if k != G.SINK and int(r.get(k).item()) != int(full.get(k).item())]
@@ -348,7 +415,7 @@ def dispatch_oracle(run):
             else:
                 kwargs["_".join(k) if isinstance(k, tuple) else k] = vals[k]
         try:
-            with time_limit(30):
+            with time_limit(90):
                 out = seq(*args, **kwargs)
         except TimeoutError:
             raise
@@ -386,7 +453,7 @@ def lazy_partial_oracle(run):
         tds = [G.make_input(m) for m in members]
         lazy = LazyStackedTensorDict(*tds, stack_dim=0)
         try:
-            with time_limit(30):
+            with time_limit(90):
                 out = seq(lazy)
         except TimeoutError:
             raise
@@ -410,7 +477,73 @@ def lazy_partial_oracle(run):
             run.oracle_ok("partial_tolerant")
 
 
+def module_variants_oracle(run):
+    """the other ways a TensorDictModule feeds / reads its function: in_keys given as a {key: kwarg} dict, outputs returned as
+    a dict / a TensorDict / a bare tensor / None — the out_keys receive the function's outputs by name (dict) or position,
+    everything else is untouched"""
+    from tensordict import TensorDict
+    from tensordict.nn import TensorDictModule
+    rng = run.rng
+    n = 80 if run.tier == "quick" else 800
+    flat_univ = [k for k in G.UNIVERSE]
+    for _ in range(n):
+        nin, nout = rng.randint(1, 3), rng.randint(0, 3)
+        ins = rng.sample(flat_univ, nin)
+        outs = rng.sample(flat_univ, nout)
+        style_in = rng.choice(["list", "dict"])
+        style_out = rng.choice(["tuple", "dict", "td", "bare"]) if nout else "none"
+        if style_out == "bare" and nout != 1:
+            style_out = "tuple"
+        names = [f"arg{i}" for i in range(nin)]
+        fid = rng.randrange(100)
+
+        def compute(vals, _fid=fid, _nout=nout):
+            return [G.app_val(_fid, vals, i) for i in range(_nout)]
+
+        def fn(*args, **kwargs):
+            vs = list(args) + [kwargs[nm] for nm in names if nm in kwargs]
+            vals = [int(v.item()) for v in vs]
+            res = [torch.tensor(v, dtype=torch.int64) for v in compute(vals)]
+            if style_out == "tuple":
+                return tuple(res)
+            if style_out == "bare":
+                return res[0]
+            if style_out == "none":
+                return None
+            d = dict(zip(outs, res))
+            d_shuffled = dict(sorted(d.items(), key=lambda kv: str(kv[0]), reverse=True))
+            return d_shuffled if style_out == "dict" else TensorDict(d_shuffled, batch_size=[])
+        case = [str(ins), str(outs), style_in, style_out]
+        run.case(("variant",) + tuple(case) + (fid,))
+        run.count("variant.in", style_in)
+        run.count("variant.out", style_out)
+        try:
+            if style_in == "dict":
+                mod = TensorDictModule(fn, in_keys=dict(zip(ins, names)), out_keys=outs, out_to_in_map=False)
+            else:
+                mod = TensorDictModule(fn, in_keys=ins, out_keys=outs)
+            env = list(dict.fromkeys(ins + [k for k in flat_univ if rng.random() < 0.4]))
+            td = G.make_input(env)
+            before = {k: v for k, v in td.items(True, True)}
+            with time_limit(90):
+                out = mod(td)
+        except TimeoutError:
+            raise
+        except Exception as e:  # noqa: BLE001
+            run.oracle_fail("module_variants", case, f"raised {type(e).__name__}: {str(e)[:100]}", "variants:raised")
+            continue
+        want = dict(zip(outs, compute([G.input_val(k) for k in ins])))
+        bad = [k for k in outs if int(out.get(k).item()) != want[k]]
+        lost = [k for k, v in before.items() if k not in outs and out.get(k, None) is not v]
+        extra = [k for k in out.keys(True, True) if k not in before and k not in outs]
+        if bad or lost or extra or out is not td:
+            run.oracle_fail("module_variants", case, f"wrong values under {bad}; untouched entries changed {lost}; unexpected {extra}", "variants:values")
+        else:
+            run.oracle_ok("module_variants")
+
+
 def run_more(run, drv, ask):
+    module_variants_oracle(run)
     dispatch_oracle(run)
     lazy_partial_oracle(run)
     hook_stream(run, drv, ask)
